@@ -59,14 +59,12 @@ impl MerkleTree {
 pub uninterp spec fn mt_path(lp: HashParams, tp: HashParams, leaves: Seq<Leaf>, i: int) -> Path;
 pub uninterp spec fn leaf_default() -> Leaf;
 impl Leaf { #[verifier::external_body] pub fn default() -> (r: Leaf) ensures r == leaf_default() { unimplemented!() } }
-#[verifier::external_body] pub fn next_power_of_two(n: usize) -> (r: usize) ensures r >= n, r >= 1, r == npow2(n as nat) { unimplemented!() }
-pub uninterp spec fn npow2(n: nat) -> nat;
 #[verifier::external_body] pub fn vec_resize_leaf(v: &mut Vec<Leaf>, new_len: usize, value: Leaf)
     ensures final(v)@.len() == new_len, forall|i: int| 0 <= i < new_len ==> (#[trigger] final(v)@[i]) == (if i < old(v)@.len() { old(v)@[i] } else { value }) { unimplemented!() }
 #[verifier::external_body] pub fn clone_vec_hout(v: &Vec<HOut>) -> (r: Vec<HOut>) ensures r@ == v@ { unimplemented!() }
 #[verifier::external_body] pub fn clone_vec_fr(v: &Vec<Fr>) -> (r: Vec<Fr>) ensures r@ == v@ { unimplemented!() }
 // leaves padded with the default leaf to the next power of two
-pub open spec fn padded(l: Seq<Leaf>) -> Seq<Leaf> { Seq::new(npow2(l.len()), |i: int| if i < l.len() { l[i] } else { leaf_default() }) }
+pub open spec fn padded(l: Seq<Leaf>) -> Seq<Leaf> { Seq::new(np2(l.len()), |i: int| if i < l.len() { l[i] } else { leaf_default() }) }
 
 //@fn id=linear_codes.create_merkle_tree file=poly-commit/src/linear_codes/mod.rs scope=top name=create_merkle_tree props=C08
 fn create_merkle_tree(leaves: &mut Vec<Leaf>, leaf_hash_param: &HashParams, two_to_one_hash_param: &HashParams) -> (res: Result<MerkleTree, Error>)
@@ -75,7 +73,8 @@ fn create_merkle_tree(leaves: &mut Vec<Leaf>, leaf_hash_param: &HashParams, two_
         res is Ok ==> res->Ok_0.leaves@ == padded(old(leaves)@) && res->Ok_0.lp@ == *leaf_hash_param && res->Ok_0.tp@ == *two_to_one_hash_param
             && res->Ok_0.rt == mt_root(*leaf_hash_param, *two_to_one_hash_param, padded(old(leaves)@)),   // name=linear_codes.create_merkle_tree.tree_over_leaves_padded_to_power_of_two props=C08
 //@body
-//@rw 1 /leaves\.len\(\)\.next_power_of_two\(\)/ => next_power_of_two(leaves.len())
+//@after start
+    proof { axiom_vec_len_bound(leaves); }
 //@rw 1 /leaves\.resize\(/ => vec_resize_leaf(leaves,
 //@before /MerkleTree::<C>::new\(/
     proof { assert(leaves@ =~= padded(old(leaves)@)); }
